@@ -179,44 +179,44 @@ func checkC16(r *Run) int {
 	}
 	var execs []*gExec
 	for li, lc := range logical {
-	cfg = lc
-	lref := mkExec(allYAML, spelling, fmt.Sprintf("L%d all-YAML", li))
-	refs = append(refs, lref)
-	seen := map[string]bool{}
-	for _, baseVal := range []int{chYAML, chParam} {
-		base := make([]int, len(opts))
-		for i := range base {
-			base[i] = chYAML
-		}
-		for _, i := range usable {
-			base[i] = baseVal
-		}
-		var rec func(start, dev int, cur []int)
-		rec = func(start, dev int, cur []int) {
-			key := fmt.Sprint(cur)
-			if !seen[key] {
-				seen[key] = true
-				e := mkExec(cur, spelling, fmt.Sprintf("L%d assign=%s", li, key))
-				refByExec[e] = lref
-				execs = append(execs, e)
+		cfg = lc
+		lref := mkExec(allYAML, spelling, fmt.Sprintf("L%d all-YAML", li))
+		refs = append(refs, lref)
+		seen := map[string]bool{}
+		for _, baseVal := range []int{chYAML, chParam} {
+			base := make([]int, len(opts))
+			for i := range base {
+				base[i] = chYAML
 			}
-			if dev == k {
-				return
+			for _, i := range usable {
+				base[i] = baseVal
 			}
-			for ui := start; ui < len(usable); ui++ {
-				i := usable[ui]
-				for v := chYAML; v <= chBothConflict; v++ {
-					if v == base[i] {
-						continue
+			var rec func(start, dev int, cur []int)
+			rec = func(start, dev int, cur []int) {
+				key := fmt.Sprint(cur)
+				if !seen[key] {
+					seen[key] = true
+					e := mkExec(cur, spelling, fmt.Sprintf("L%d assign=%s", li, key))
+					refByExec[e] = lref
+					execs = append(execs, e)
+				}
+				if dev == k {
+					return
+				}
+				for ui := start; ui < len(usable); ui++ {
+					i := usable[ui]
+					for v := chYAML; v <= chBothConflict; v++ {
+						if v == base[i] {
+							continue
+						}
+						n := append([]int{}, cur...)
+						n[i] = v
+						rec(ui+1, dev+1, n)
 					}
-					n := append([]int{}, cur...)
-					n[i] = v
-					rec(ui+1, dev+1, n)
 				}
 			}
+			rec(0, 0, base)
 		}
-		rec(0, 0, base)
-	}
 	}
 	cfg = cfg1
 	// 3. '+' separated lists with 1-3 entries, both channels
